@@ -211,9 +211,13 @@ def domain(tier):
         for part in range(4):
             cor.append(('MatchingDecoder', 'Toric2DCode', list(size), 3, None, tier, ('clustered', part, 4)))
     # sweep-match: single-qubit errors on home lattices with d >= 3
-    for size in codes.sizes('Toric3DCode', 3 if tier == 'quick' else 4):
-        if min(size) >= 3:
-            cor.append(('SweepMatchDecoder', 'Toric3DCode', list(size), 1, None, tier, True))
+    toric3 = [s_ for s_ in codes.sizes('Toric3DCode', 3 if tier == 'quick' else 4) if min(s_) >= 3]
+    if tier == 'quick':
+        toric3 += [(4, 3, 3), (3, 4, 3), (3, 3, 4)]      # every orientation of the long side
+    else:
+        toric3 += [(5, 4, 3), (3, 5, 4)]
+    for size in dict.fromkeys(toric3):
+        cor.append(('SweepMatchDecoder', 'Toric3DCode', list(size), 1, None, tier, True))
     for size in codes.sizes('RotatedPlanar3DCode', 3 if tier == 'quick' else 5):
         if codes.qubit_count('RotatedPlanar3DCode', size) <= 150 and \
                 codes.build('RotatedPlanar3DCode', size).d >= 3 and (tier != 'quick' or size[2] <= 3):
